@@ -15,7 +15,10 @@
 use serde_json::{json, Value};
 use std::marker::PhantomData;
 use zipora::entropy::dictionary::DictionaryBuilder;
-use zipora::entropy::fse::{fse_decompress_with_config, FseTable};
+use zipora::entropy::bit_ops::BitOps;
+use zipora::entropy::fse::{fse_compress, fse_compress_with_config, fse_decompress, fse_decompress_with_config, EntropyNormalizer, FseDecoder, FseTable};
+use zipora::entropy::parallel::AdaptiveParallelEncoder;
+use zipora::entropy::rans::Rans64State;
 use zipora::entropy::huffman::InterleavingFactor;
 use zipora::entropy::parallel::{
     ParallelConfig, ParallelHuffmanDecoder, ParallelHuffmanEncoder, ParallelVariant as HuffVariant, ParallelX2Variant, ParallelX4Variant,
@@ -128,6 +131,10 @@ trait Codec {
     /// largest payload this subject is driven with (quadratic coders)
     fn max_len(&self, _thorough: bool) -> usize {
         usize::MAX
+    }
+    /// does this subject take the sessions of input family `klass`?
+    fn takes(&self, klass: &str) -> bool {
+        klass != "bitfield"
     }
 }
 
@@ -483,7 +490,7 @@ impl Codec for Dict {
         if thorough {
             16384
         } else {
-            4096
+            8192
         }
     }
 }
@@ -509,6 +516,480 @@ impl Codec for ODict {
         } else {
             65536
         }
+    }
+}
+
+
+// ---------------------------------------------------------------- twins and lower-level entry points
+
+/// HuffmanEncoder::from_frequencies: the constructor twin of HuffmanEncoder::new
+struct Huff0Freq {
+    enc: Option<HuffmanEncoder>,
+    t: Vec<u8>,
+}
+impl Codec for Huff0Freq {
+    fn train(&mut self, t: &[u8]) -> Result<Value, String> {
+        self.enc = None;
+        self.enc = Some(HuffmanEncoder::from_frequencies(&hist(t)).map_err(estr)?);
+        self.t = t.to_vec();
+        Ok(json!({}))
+    }
+    fn mech(&self, c: &str, _seed: u64, _all: bool) -> Vec<Value> {
+        self.enc.iter().map(|e| codes_event(c, -1, e.tree(), &present(&self.t))).collect()
+    }
+    fn encode(&mut self, x: &[u8]) -> Result<Vec<u8>, String> {
+        self.enc.as_ref().ok_or(NO_MODEL.to_string())?.encode(x).map_err(estr)
+    }
+    fn decode(&mut self, blob: &[u8], n: usize) -> Result<Vec<u8>, String> {
+        // the decoder's tree comes from the twin constructor of the tree
+        let tree = HuffmanTree::from_frequencies(&hist(&self.t)).map_err(estr)?;
+        HuffmanDecoder::new(tree).decode(blob, n).map_err(estr)
+    }
+}
+
+/// symbol-level rANS API (Rans64State + encode_symbol / decode_symbol), driven the way encode_single /
+/// decode_single drive it, crossed with the bulk API: sym_enc = symbol-level encode + bulk decode,
+/// sym_dec = bulk encode + symbol-level decode.  The twins must agree.
+struct RansSym {
+    sym_enc: bool,
+    enc: Option<Rans64Encoder<ParallelX1>>,
+    f: [u32; 256],
+}
+impl Codec for RansSym {
+    fn train(&mut self, t: &[u8]) -> Result<Value, String> {
+        self.enc = None;
+        self.f = hist(t);
+        self.enc = Some(Rans64Encoder::<ParallelX1>::new(&self.f).map_err(estr)?);
+        Ok(json!({}))
+    }
+    fn mech(&self, c: &str, seed: u64, _all: bool) -> Vec<Value> {
+        let Some(e) = self.enc.as_ref() else { return vec![] };
+        let mut v = vec![table_event(c, "rans", &self.f, |s| (e.get_symbol(s).start, e.get_symbol(s).freq), e.total_freq())];
+        // the symbol-step law on states that need no renormalisation: 2^16 <= x < 2^12 * slots
+        let d = Rans64Decoder::new(e);
+        let mut r = Rng::new(seed).derive("symsteps");
+        let mut items = vec![];
+        for s in 0..=255u8 {
+            let f = e.get_symbol(s).freq as u64;
+            if f <= 16 || items.len() >= 60 {
+                continue;
+            }
+            let (lo, hi) = (1u64 << 16, (1u64 << 12) * f);
+            for x in [lo, lo + 1, hi - 1, lo + r.below(hi - lo), lo + r.below(hi - lo)] {
+                let mut st = Rans64State::new();
+                st.set_state(x);
+                let mut out = vec![];
+                let need = st.needs_renorm_encode(f as u32);
+                let ok = e.encode_symbol(&mut st, s, &mut out).is_ok() && out.is_empty();
+                let ns = st.state();
+                let mut pos = 0usize;
+                let mut st2 = Rans64State::from_state(ns);
+                let back = !st2.needs_renorm_decode();
+                let ds = d.decode_symbol(&mut st2, &out, &mut pos).unwrap_or(0);
+                items.push(json!({"s":s,"f":f,"x":x.to_string(),"xh":x >> 32,"ok":ok && back,"ns":ns.to_string(),"ds":ds,"dx":st2.state().to_string(),"need":need}));
+            }
+        }
+        if !items.is_empty() {
+            v.push(json!({"op":"symsteps","c":c,"kind":"rans","items":items}));
+        }
+        v
+    }
+    fn encode(&mut self, x: &[u8]) -> Result<Vec<u8>, String> {
+        let e = self.enc.as_ref().ok_or(NO_MODEL.to_string())?;
+        if !self.sym_enc {
+            return e.encode(x).map_err(estr);
+        }
+        let mut st = Rans64State::new();
+        let mut out = Vec::new();
+        for &b in x.iter().rev() {
+            e.encode_symbol(&mut st, b, &mut out).map_err(estr)?;
+        }
+        out.extend_from_slice(&st.state().to_le_bytes());
+        Ok(out)
+    }
+    fn decode(&mut self, blob: &[u8], n: usize) -> Result<Vec<u8>, String> {
+        let e = self.enc.as_ref().ok_or(NO_MODEL.to_string())?;
+        let d = Rans64Decoder::new(e);
+        if self.sym_enc {
+            return d.decode(blob, n).map_err(estr);
+        }
+        if blob.len() < 8 {
+            return Err("harness: blob shorter than a state".into());
+        }
+        let mut pos = blob.len() - 8;
+        let mut w = [0u8; 8];
+        w.copy_from_slice(&blob[pos..]);
+        let mut st = Rans64State::from_state(u64::from_le_bytes(w));
+        let mut out = Vec::with_capacity(n);
+        for _ in 0..n {
+            out.push(d.decode_symbol(&mut st, blob, &mut pos).map_err(estr)?);
+        }
+        Ok(out)
+    }
+}
+
+/// the free functions fse_compress / fse_decompress and fse_compress_with_config / fse_decompress_with_config
+struct FseFn {
+    cfg: Option<FseConfig>,
+}
+impl Codec for FseFn {
+    fn trains(&self) -> bool {
+        false
+    }
+    fn mech_for(&self, c: &str, x: &[u8]) -> Vec<Value> {
+        if x.is_empty() {
+            return vec![];
+        }
+        let cfg = self.cfg.clone().unwrap_or_default();
+        let mut v = fse_table(c, &cfg, x);
+        // EntropyNormalizer::normalize_frequencies_entropy_preserving is public with a free table size
+        let f = hist(x);
+        for total in [1024u32, 8192] {
+            if let Ok(n) = EntropyNormalizer::new().normalize_frequencies_entropy_preserving(&f[..], total) {
+                let (mut fs, mut ns) = (vec![], vec![]);
+                for s in 0..256 {
+                    if f[s] > 0 || n.get(s).copied().unwrap_or(0) > 0 {
+                        fs.push(f[s]);
+                        ns.push(n.get(s).copied().unwrap_or(0));
+                    }
+                }
+                v.push(json!({"op":"norm","c":c,"kind":"fse","freq":fs,"norm":ns,"total":total}));
+            }
+        }
+        v
+    }
+    fn encode(&mut self, x: &[u8]) -> Result<Vec<u8>, String> {
+        match &self.cfg {
+            None => fse_compress(x),
+            Some(c) => fse_compress_with_config(x, c.clone()),
+        }
+        .map_err(estr)
+    }
+    fn decode(&mut self, blob: &[u8], _n: usize) -> Result<Vec<u8>, String> {
+        match &self.cfg {
+            None => fse_decompress(blob),
+            Some(c) => fse_decompress_with_config(blob, c.clone()),
+        }
+        .map_err(estr)
+    }
+}
+
+/// FseEncoder / FseDecoder objects with a configuration (block-parallel, table_log extremes) and optionally a
+/// dictionary (FseEncoder::with_dictionary: its bytes are added to the counts the table is built from)
+struct FseObj {
+    cfg: FseConfig,
+    dict: Option<Vec<u8>>,
+}
+impl Codec for FseObj {
+    fn trains(&self) -> bool {
+        false
+    }
+    fn mech_for(&self, c: &str, x: &[u8]) -> Vec<Value> {
+        if x.is_empty() {
+            return vec![];
+        }
+        let mut all = x.to_vec();
+        if let Some(d) = &self.dict {
+            all.extend_from_slice(d);
+        }
+        fse_table(c, &self.cfg, &all)
+    }
+    fn encode(&mut self, x: &[u8]) -> Result<Vec<u8>, String> {
+        let mut e = match &self.dict {
+            Some(d) => FseEncoder::with_dictionary(self.cfg.clone(), d.clone()),
+            None => FseEncoder::new(self.cfg.clone()),
+        }
+        .map_err(estr)?;
+        e.compress(x).map_err(estr)
+    }
+    fn decode(&mut self, blob: &[u8], _n: usize) -> Result<Vec<u8>, String> {
+        let mut d = FseDecoder::with_config(self.cfg.clone()).map_err(estr)?;
+        d.decompress(blob).map_err(estr)
+    }
+}
+
+/// non-adaptive encoder trained through the public analyze_frequencies (instead of a first compress call)
+struct FseAnalyze {
+    cfg: FseConfig,
+    enc: Option<FseEncoder>,
+    model: Option<Vec<u8>>,
+}
+impl Codec for FseAnalyze {
+    fn train(&mut self, t: &[u8]) -> Result<Value, String> {
+        self.model = None;
+        let mut e = FseEncoder::new(self.cfg.clone()).map_err(estr)?;
+        let r = e.analyze_frequencies(t).map_err(estr);
+        self.enc = Some(e);
+        r?;
+        self.model = Some(t.to_vec());
+        Ok(json!({}))
+    }
+    fn mech(&self, c: &str, _seed: u64, _all: bool) -> Vec<Value> {
+        match &self.model {
+            Some(m) => fse_table(c, &self.cfg, m),
+            None => vec![],
+        }
+    }
+    fn mech_for(&self, c: &str, x: &[u8]) -> Vec<Value> {
+        if self.model.is_some() || x.is_empty() {
+            vec![]
+        } else {
+            fse_table(c, &self.cfg, x)
+        }
+    }
+    fn encode(&mut self, x: &[u8]) -> Result<Vec<u8>, String> {
+        if self.enc.is_none() {
+            self.enc = Some(FseEncoder::new(self.cfg.clone()).map_err(estr)?);
+        }
+        let had = self.model.is_some();
+        let r = self.enc.as_mut().unwrap().compress(x).map_err(estr);
+        if !had && r.is_ok() && !x.is_empty() {
+            self.model = Some(x.to_vec());
+        }
+        r
+    }
+    fn decode(&mut self, blob: &[u8], _n: usize) -> Result<Vec<u8>, String> {
+        fse_decompress_with_config(blob, self.cfg.clone()).map_err(estr)
+    }
+}
+
+/// symbol-level FSE API on a public FseTable: renormalize_encode + encode_symbol(_accelerated) in reverse order and
+/// the final state appended; decode_symbol + renormalize_decode forwards - the order FseEncoder / FseDecoder use
+struct FseSym {
+    t: Option<FseTable>,
+    model: Vec<u8>,
+}
+impl Codec for FseSym {
+    fn train(&mut self, t: &[u8]) -> Result<Value, String> {
+        self.t = None;
+        self.t = Some(FseTable::new(&hist(t), &FseConfig::default()).map_err(estr)?);
+        self.model = t.to_vec();
+        Ok(json!({}))
+    }
+    fn mech(&self, c: &str, seed: u64, _all: bool) -> Vec<Value> {
+        let Some(t) = self.t.as_ref() else { return vec![] };
+        let mut v = fse_table(c, &FseConfig::default(), &self.model);
+        // the symbol-step law decode_symbol(encode_symbol(s, x)) = (s, x) on states the encoder can be in
+        // (1 <= x < 2^36 * slots, what renormalize_encode leaves) for the symbols with the fewest / most slots
+        let mut syms: Vec<u8> = present(&self.model);
+        syms.sort_by_key(|&s| t.dec_symbols[s as usize].freq);
+        let pick: Vec<u8> = syms.iter().take(3).chain(syms.iter().rev().take(2)).copied().collect();
+        let mut r = Rng::new(seed).derive("symsteps");
+        let mut items = vec![];
+        for &s in &pick {
+            let f = t.dec_symbols[s as usize].freq as u64;
+            let top = (1u64 << 36) * f.max(1);
+            let mut xs = vec![1u64, 2, 65535, 65536, (1 << 32) - 1, 1 << 32, (1 << 33) - 1, (3 << 32) + 0xFFFF_FFFE, (1 << 35) + 0xF000_0000, top - 1, top / 2 + 0xFFFF_FFFF];
+            for _ in 0..3 {
+                xs.push(1 + r.below(top - 1));
+                xs.push(((1 + r.below(15)) << 32) | 0xFFFF_0000 | r.below(0x10000));
+            }
+            for x in xs {
+                if x == 0 || x >= top {
+                    continue;
+                }
+                match t.encode_symbol(s, x) {
+                    Some((ns, _)) => {
+                        let (ds, dx) = t.decode_symbol(ns);
+                        items.push(json!({"s":s,"f":f,"x":x.to_string(),"xh":x >> 32,"ok":true,"ns":ns.to_string(),"ds":ds,"dx":dx.to_string()}));
+                    }
+                    None => items.push(json!({"s":s,"f":f,"x":x.to_string(),"xh":x >> 32,"ok":false,"ns":"0","ds":0,"dx":"0"})),
+                }
+            }
+        }
+        if !items.is_empty() {
+            v.push(json!({"op":"symsteps","c":c,"kind":"fse","items":items}));
+        }
+        v
+    }
+    fn encode(&mut self, x: &[u8]) -> Result<Vec<u8>, String> {
+        let t = self.t.as_ref().ok_or(NO_MODEL.to_string())?;
+        let mut out = Vec::new();
+        let mut st = 1u64;
+        for (k, &b) in x.iter().rev().enumerate() {
+            let f = t.enc_symbols[b as usize].freq as u32;
+            st = t.renormalize_encode(st, &mut out, f);
+            let r = if k % 2 == 0 { t.encode_symbol(b, st) } else { t.encode_symbol_accelerated(b, st) };
+            st = r.ok_or(format!("encode_symbol({b}) -> None"))?.0;
+        }
+        out.extend_from_slice(&st.to_le_bytes());
+        Ok(out)
+    }
+    fn decode(&mut self, blob: &[u8], n: usize) -> Result<Vec<u8>, String> {
+        let t = self.t.as_ref().ok_or(NO_MODEL.to_string())?;
+        if blob.len() < 8 {
+            return Err("harness: blob shorter than a state".into());
+        }
+        let body = &blob[..blob.len() - 8];
+        let mut w = [0u8; 8];
+        w.copy_from_slice(&blob[blob.len() - 8..]);
+        let mut st = u64::from_le_bytes(w);
+        let mut pos = body.len();
+        let mut out = Vec::with_capacity(n);
+        for _ in 0..n {
+            let (s, ns) = t.decode_symbol(st);
+            out.push(s);
+            st = t.renormalize_decode(ns, body, &mut pos).ok_or("renormalize_decode -> None".to_string())?;
+        }
+        Ok(out)
+    }
+}
+
+/// builder / compressor configuration setters of the LZ coders
+struct DictCfg {
+    c: Option<DictionaryCompressor>,
+}
+impl Codec for DictCfg {
+    fn train(&mut self, t: &[u8]) -> Result<Value, String> {
+        let d = DictionaryBuilder::new().max_entries(64).min_match_length(4).max_match_length(32).window_size(1024).build(t);
+        let n = d.len();
+        self.c = Some(DictionaryCompressor::new(d).min_match_length(12).max_match_length(20));
+        Ok(json!({"entries": n}))
+    }
+    fn encode(&mut self, x: &[u8]) -> Result<Vec<u8>, String> {
+        self.c.as_ref().ok_or(NO_MODEL.to_string())?.compress(x).map_err(estr)
+    }
+    fn decode(&mut self, blob: &[u8], _n: usize) -> Result<Vec<u8>, String> {
+        self.c.as_ref().ok_or(NO_MODEL.to_string())?.decompress(blob).map_err(estr)
+    }
+    fn max_len(&self, thorough: bool) -> usize {
+        if thorough {
+            16384
+        } else {
+            8192
+        }
+    }
+}
+struct ODictCfg {
+    c: Option<OptimizedDictionaryCompressor>,
+}
+impl Codec for ODictCfg {
+    fn train(&mut self, t: &[u8]) -> Result<Value, String> {
+        self.c = None;
+        self.c = Some(OptimizedDictionaryCompressor::with_config(t, 4, 20, 512).map_err(estr)?);
+        Ok(json!({}))
+    }
+    fn encode(&mut self, x: &[u8]) -> Result<Vec<u8>, String> {
+        self.c.as_ref().ok_or(NO_MODEL.to_string())?.compress(x).map_err(estr)
+    }
+    fn decode(&mut self, blob: &[u8], _n: usize) -> Result<Vec<u8>, String> {
+        self.c.as_ref().ok_or(NO_MODEL.to_string())?.decompress(blob).map_err(estr)
+    }
+    fn max_len(&self, thorough: bool) -> usize {
+        if thorough {
+            1 << 20
+        } else {
+            210_000
+        }
+    }
+}
+
+/// AdaptiveParallelEncoder::encode_adaptive picks algorithm and stream count from the payload
+/// (select_optimal_encoding is public); the matching decoder is the one of the algorithm it names:
+/// Huffman: tree of the payload; rANS: the uniform table the adaptive encoder is built with; FSE: default.
+struct ParAdaptive {
+    how: (&'static str, &'static str),
+    x: Vec<u8>,
+}
+fn par_huff_dec<P: HuffVariant>(x: &[u8], blob: &[u8], n: usize) -> Result<Vec<u8>, String> {
+    let mut d = ParallelHuffmanDecoder::<P>::new(ParallelConfig::default());
+    d.set_tree(HuffmanTree::from_data(x).map_err(estr)?).map_err(estr)?;
+    d.decode(blob, n).map_err(estr)
+}
+impl Codec for ParAdaptive {
+    fn trains(&self) -> bool {
+        false
+    }
+    fn mech_for(&self, c: &str, x: &[u8]) -> Vec<Value> {
+        // when the selection names FSE the table is the one FseEncoder(default) derives from the payload
+        match AdaptiveParallelEncoder::new() {
+            Ok(e) if !x.is_empty() && e.select_optimal_encoding(x).0 == "fse" => fse_table(c, &FseConfig::default(), x),
+            _ => vec![],
+        }
+    }
+    fn encode(&mut self, x: &[u8]) -> Result<Vec<u8>, String> {
+        let mut e = AdaptiveParallelEncoder::new().map_err(estr)?;
+        self.how = e.select_optimal_encoding(x);
+        self.x = x.to_vec();
+        e.encode_adaptive(x).map_err(estr)
+    }
+    fn decode(&mut self, blob: &[u8], n: usize) -> Result<Vec<u8>, String> {
+        let uni = [1u32; 256];
+        match self.how {
+            ("huffman", "x2") => par_huff_dec::<ParallelX2Variant>(&self.x, blob, n),
+            ("huffman", "x4") => par_huff_dec::<ParallelX4Variant>(&self.x, blob, n),
+            ("huffman", _) => par_huff_dec::<ParallelX8Variant>(&self.x, blob, n),
+            ("rans", "x2") => rans_dec::<ParallelX2>(&uni, blob, n),
+            ("rans", "x4") => rans_dec::<ParallelX4>(&uni, blob, n),
+            ("rans", _) => rans_dec::<ParallelX8>(&uni, blob, n),
+            _ => FseDecoder::new().decompress(blob).map_err(estr),
+        }
+    }
+}
+
+/// ParallelHuffman with the high_throughput configuration (512 KiB single-stream threshold)
+struct ParHuffHt {
+    enc: Option<ParallelHuffmanEncoder<ParallelX4Variant>>,
+    tree: Option<HuffmanTree>,
+    t: Vec<u8>,
+}
+impl Codec for ParHuffHt {
+    fn train(&mut self, t: &[u8]) -> Result<Value, String> {
+        self.enc = None;
+        self.tree = None;
+        let mut e = ParallelHuffmanEncoder::<ParallelX4Variant>::new(ParallelConfig::high_throughput()).map_err(estr)?;
+        e.train(t).map_err(estr)?;
+        self.tree = Some(HuffmanTree::from_data(t).map_err(estr)?);
+        self.enc = Some(e);
+        self.t = t.to_vec();
+        Ok(json!({}))
+    }
+    fn mech(&self, c: &str, _seed: u64, _all: bool) -> Vec<Value> {
+        self.tree.iter().map(|t| codes_event(c, -1, t, &present(&self.t))).collect()
+    }
+    fn encode(&mut self, x: &[u8]) -> Result<Vec<u8>, String> {
+        self.enc.as_mut().ok_or(NO_MODEL.to_string())?.encode(x).map_err(estr)
+    }
+    fn decode(&mut self, blob: &[u8], n: usize) -> Result<Vec<u8>, String> {
+        let tree = self.tree.as_ref().ok_or(NO_MODEL.to_string())?.clone();
+        let mut d = ParallelHuffmanDecoder::<ParallelX4Variant>::new(ParallelConfig::high_throughput());
+        d.set_tree(tree).map_err(estr)?;
+        d.decode(blob, n).map_err(estr)
+    }
+}
+
+/// BitOps::encode_variable_length_bmi2 / decode_variable_length_bmi2: a field of `len` bits.  Payload = [len, value as
+/// 4 LE bytes] with value < 2^len; blob = [len, field as 8 LE bytes]; decode returns [len, value read back].
+struct BitField {
+    ops: BitOps,
+}
+impl Codec for BitField {
+    fn trains(&self) -> bool {
+        false
+    }
+    fn takes(&self, klass: &str) -> bool {
+        klass == "bitfield"
+    }
+    fn encode(&mut self, x: &[u8]) -> Result<Vec<u8>, String> {
+        if x.len() != 5 {
+            return Err("harness: not a field".into());
+        }
+        let v = u32::from_le_bytes([x[1], x[2], x[3], x[4]]);
+        let bits = self.ops.encode_variable_length_bmi2(v, x[0] as u32).map_err(estr)?;
+        let mut out = vec![x[0]];
+        out.extend_from_slice(&bits.to_le_bytes());
+        Ok(out)
+    }
+    fn decode(&mut self, blob: &[u8], _n: usize) -> Result<Vec<u8>, String> {
+        if blob.len() != 9 {
+            return Err("harness: not a field blob".into());
+        }
+        let mut w = [0u8; 8];
+        w.copy_from_slice(&blob[1..]);
+        let v = self.ops.decode_variable_length_bmi2(u64::from_le_bytes(w), 0, blob[0] as u32).map_err(estr)?;
+        let mut out = vec![blob[0]];
+        out.extend_from_slice(&v.to_le_bytes());
+        Ok(out)
     }
 }
 
@@ -548,6 +1029,23 @@ const SUBJECTS: &[(&str, &str, &str, u32)] = &[
     ("fse_zip", "fse", "zip", 1),
     ("dict", "dict", "lz", 1),
     ("odict", "odict", "lz", 1),
+    // twins, lower-level entry points, further configurations
+    ("huff0_freq", "huff", "fromfreq", 1),
+    ("rans_symenc", "rans", "symenc", 1),
+    ("rans_symdec", "rans", "symdec", 1),
+    ("fse_fn_default", "fse", "fn_default", 1),
+    ("fse_fn_fast", "fse", "fn_fast", 1),
+    ("fse_par", "fse", "par", 4),
+    ("fse_dict", "fse", "dict", 1),
+    ("fse_log5", "fse", "log5", 1),
+    ("fse_log15", "fse", "log15", 1),
+    ("fse_realtime_an", "fse", "realtime", 1),
+    ("fse_sym", "fse", "sym", 1),
+    ("dict_cfg", "dict", "cfg", 1),
+    ("odict_cfg", "odict", "cfg", 1),
+    ("par_adaptive", "paradapt", "adaptive", 0),
+    ("parhuff_x4_ht", "parhuff", "x4ht", 4),
+    ("bitfield", "bitfield", "varlen", 1),
 ];
 
 fn make(name: &str) -> Box<dyn Codec> {
@@ -589,6 +1087,22 @@ fn make(name: &str) -> Box<dyn Codec> {
         "fse_zip" => Box::new(FseZip),
         "dict" => Box::new(Dict { c: None }),
         "odict" => Box::new(ODict { c: None }),
+        "huff0_freq" => Box::new(Huff0Freq { enc: None, t: vec![] }),
+        "rans_symenc" => Box::new(RansSym { sym_enc: true, enc: None, f: [0; 256] }),
+        "rans_symdec" => Box::new(RansSym { sym_enc: false, enc: None, f: [0; 256] }),
+        "fse_fn_default" => Box::new(FseFn { cfg: None }),
+        "fse_fn_fast" => Box::new(FseFn { cfg: Some(FseConfig::fast_compression()) }),
+        "fse_par" => Box::new(FseObj { cfg: FseConfig { parallel_blocks: Some(4), block_size: 16 * 1024, ..FseConfig::default() }, dict: None }),
+        "fse_dict" => Box::new(FseObj { cfg: FseConfig::default(), dict: Some(b"the quick brown fox jumps over the lazy dog 0123456789".repeat(4)) }),
+        "fse_log5" => Box::new(FseObj { cfg: FseConfig { table_log: 5, ..FseConfig::default() }, dict: None }),
+        "fse_log15" => Box::new(FseObj { cfg: FseConfig { table_log: 15, ..FseConfig::default() }, dict: None }),
+        "fse_realtime_an" => Box::new(FseAnalyze { cfg: FseConfig::realtime(), enc: None, model: None }),
+        "fse_sym" => Box::new(FseSym { t: None, model: vec![] }),
+        "dict_cfg" => Box::new(DictCfg { c: None }),
+        "odict_cfg" => Box::new(ODictCfg { c: None }),
+        "par_adaptive" => Box::new(ParAdaptive { how: ("", ""), x: vec![] }),
+        "parhuff_x4_ht" => Box::new(ParHuffHt { enc: None, tree: None, t: vec![] }),
+        "bitfield" => Box::new(BitField { ops: BitOps::new() }),
         _ => {
             eprintln!("c01: unknown subject {name}");
             std::process::exit(2)
@@ -841,6 +1355,87 @@ fn sessions(a: &Args, subj_index: usize, heavy: bool) -> Vec<Session> {
         out.push(Session { klass: "edge".into(), mode: "superset", train: t.clone(), payloads: vec![vec![], vec![t[0]], vec![t[1], t[1]], t[..3].to_vec()] });
     }
 
+    // --- symbol counts and total lengths across the widths a header or table field could have (8 / 12 / 16 bits),
+    //     the dominant symbol next to rarer ones that still own slots of a 4096-slot table
+    {
+        let mut r = root.derive("widths");
+        for &c in &[255usize, 256, 4095, 4096, 65535, 65536] {
+            let x = from_counts(&[b'z', b'b', b'c'], &[c, c / 8 + 3, c / 16 + 2], &mut r, true);
+            out.push(Session { klass: format!("count{c}"), mode: "same", train: x.clone(), payloads: vec![x.clone()] });
+            if c >= 65535 {
+                let y = from_counts(&[b'b', b'z'], &[1, c], &mut r, true);
+                out.push(Session { klass: format!("count{c}r1"), mode: "same", train: y.clone(), payloads: vec![y] });
+                out.push(Session { klass: format!("count{c}"), mode: "other", train: x[..8192].to_vec(), payloads: vec![x] });
+            }
+        }
+        let a16 = alphabet(16, &mut r);
+        let stair: Vec<usize> = (0..16).map(|i| 16 - i).collect();
+        let mk = |n: usize, r: &mut Rng| {
+            let tot: usize = stair.iter().sum();
+            let mut counts: Vec<usize> = stair.iter().map(|w| w * n / tot).collect();
+            let used: usize = counts.iter().sum();
+            counts[0] += n - used;
+            from_counts(&a16, &counts, r, true)
+        };
+        let mut ns = vec![65535usize, 65536, 65537];
+        // size-dependent switches: rANS adaptive 73 / 5329, SIMD tiers 64 / 1024 / 8192, single-stream thresholds and
+        // block splitting at 32 KiB (ParallelConfig::low_latency, FSE blocks of 16 KiB: parallel above 2 blocks)
+        ns.extend_from_slice(&[72, 73, 1023, 1024, 1025, 5328, 5329, 8191, 8192, 8193, 32767, 32768, 32769]);
+        if th {
+            ns.extend_from_slice(&[131071, 131072, 131073, 262144, 262145, 524287, 524288, 524289]);
+        }
+        for n in ns {
+            let x = mk(n, &mut r);
+            out.push(Session { klass: format!("len{n}"), mode: "same", train: x.clone(), payloads: vec![x] });
+        }
+        let big = if th { 2_000_000 } else { 200_000 };
+        let x = from_counts(&[b'p', b'q'], &[big * 7 / 10, big * 3 / 10], &mut r, true);
+        out.push(Session { klass: format!("len{big}"), mode: "same", train: x.clone(), payloads: vec![x.clone()] });
+        out.push(Session { klass: format!("len{big}"), mode: "superset", train: mk(3000, &mut r).into_iter().chain(x[..50000].iter().copied()).collect(), payloads: vec![x] });
+    }
+
+    // --- LZ switches: match lengths around the minimum (10) and the maximum (258), distances around the 32 KiB window
+    {
+        let mut r = root.derive("lz");
+        let mut x = r.bytes(300);
+        for &m in &[9usize, 10, 11, 12, 19, 20, 21, 257, 258, 259, 600] {
+            let pat = r.bytes(m);
+            x.extend_from_slice(&r.bytes(40));
+            x.extend_from_slice(&pat);
+            x.extend_from_slice(&r.bytes(50));
+            x.extend_from_slice(&pat);
+        }
+        out.push(Session { klass: "lzlen".into(), mode: "same", train: x.clone(), payloads: vec![x.clone()] });
+        out.push(Session { klass: "lzlen".into(), mode: "other", train: r.bytes(500), payloads: vec![x] });
+        for &d in &[511usize, 512, 513, 32767, 32768, 32769] {
+            let pat = r.bytes(24);
+            let mut y = pat.clone();
+            y.extend_from_slice(&r.bytes(d - 24));
+            y.extend_from_slice(&pat);
+            y.extend_from_slice(&r.bytes(30));
+            out.push(Session { klass: format!("lzdist{d}"), mode: "same", train: y.clone(), payloads: vec![y] });
+        }
+    }
+
+    // --- bit fields of every width for the variable-length field pair of BitOps (value < 2^len)
+    {
+        let mut r = root.derive("bitfield");
+        let mut ps = vec![];
+        for len in 0u32..=33 {
+            let max = if len >= 32 { u32::MAX } else { (1u32 << len).wrapping_sub(1) };
+            let mut vals = vec![0u32, 1 & max, max, max.wrapping_sub(1) & max, max >> 1, (max >> 1).wrapping_add(1) & max];
+            for _ in 0..3 {
+                vals.push(r.next() as u32 & max);
+            }
+            for v in vals {
+                let mut p = vec![len as u8];
+                p.extend_from_slice(&v.to_le_bytes());
+                ps.push(p);
+            }
+        }
+        out.push(Session { klass: "bitfield".into(), mode: "same", train: vec![], payloads: ps });
+    }
+
     // --- the recorded witnesses of the known findings (smallest inputs of their shape), for every subject
     {
         let abc = |n: usize| {
@@ -924,13 +1519,18 @@ fn run_subject(a: &Args, name: &str) {
             continue;
         }
         let mut codec = make(name);
+        if !codec.takes(&s.klass) {
+            continue;
+        }
         let trains = codec.trains();
+        // the window sessions are random bytes: cheap even for the quadratic matchers
+        let cap = if s.klass.starts_with("lzdist") { codec.max_len(a.thorough()).max(40_000) } else { codec.max_len(a.thorough()) };
         // a codec without a training step sees every payload on its own: other / superset sessions only repeat "same"
         if !trains && s.mode != "same" && !(s.klass == "small3" && s.mode == "superset") {
             continue;
         }
         let mode = if trains { s.mode } else { "self" };
-        if trains && s.train.len() > codec.max_len(a.thorough()) {
+        if trains && s.train.len() > cap {
             st.skipped_sessions += 1;
             continue;
         }
@@ -952,7 +1552,7 @@ fn run_subject(a: &Args, name: &str) {
                     match guard(|| if want_mech { codec.mech(name, mseed, all_ctx) } else { vec![] }) {
                         Ok(evs) => {
                             for e in evs {
-                                if e["op"] == "table" {
+                                if e["op"] == "table" || e["op"] == "norm" || e["op"] == "symsteps" {
                                     st.tables += 1
                                 } else {
                                     st.code_tables += 1
@@ -988,7 +1588,7 @@ fn run_subject(a: &Args, name: &str) {
             for chunk in s.payloads.chunks(400) {
                 let mut items = vec![];
                 for x in chunk {
-                    if x.len() > codec.max_len(a.thorough()) {
+                    if x.len() > cap {
                         st.skipped_payloads += 1;
                         continue;
                     }
@@ -1050,7 +1650,7 @@ fn run_subject(a: &Args, name: &str) {
             if !alive {
                 break;
             }
-            if x.len() > codec.max_len(a.thorough()) {
+            if x.len() > cap {
                 st.skipped_payloads += 1;
                 continue;
             }
@@ -1089,7 +1689,12 @@ fn run_subject(a: &Args, name: &str) {
             blob_id += 1;
             st.encodes_ok += 1;
             st.bytes += x.len() as u64;
-            tr.ev(json!({"op":"encode","c":name,"x":digest(x),"alpha":alpha,"ok":true,"b":blob_id,"blob":digest(&blob),"err":""}));
+            let mut ev = json!({"op":"encode","c":name,"x":digest(x),"alpha":alpha,"ok":true,"b":blob_id,"blob":digest(&blob),"err":""});
+            if fam == "fse" || fam == "paradapt" {
+                // which byte values the payload contains (the known-finding guard: a symbol WITHOUT a slot occurs in it)
+                ev["xs"] = json!(present(x));
+            }
+            tr.ev(ev);
             tr.flush();
             let dec = guard(|| codec.decode(&blob, x.len()));
             st.decodes += 1;
